@@ -147,20 +147,23 @@ pub async fn dexec(ops: &[DOp]) -> DOut {
     let mut prov_of: [bool; NL] = [false; NL];
     // SSRCs the application registered explicitly (register_listener_sync) and that no extension-routed packet has touched since
     let mut ssrc_owner: BTreeMap<u32, usize> = BTreeMap::new();
+    // SSRC → (receiver, by which extension) its most recent extension-carrying packet was identified AND delivered to; forgotten on
+    // any re-registration of that SSRC, clear_listeners, the receiver closing, or an extension-carrying packet that was not so delivered
+    let mut identified: BTreeMap<u32, (usize, &'static str)> = BTreeMap::new();
     let mut seq = 0u16;
     for (i, op) in ops.iter().enumerate() {
         let mut res = "-".to_string();
         match op {
-            DOp::Ssrc(s, l) => { tr.register_listener_sync(*s, txs[*l].clone()); registered[*l] = true; cleared_since[*l] = false; ssrc_owner.insert(*s, *l); }
+            DOp::Ssrc(s, l) => { tr.register_listener_sync(*s, txs[*l].clone()); registered[*l] = true; cleared_since[*l] = false; ssrc_owner.insert(*s, *l); identified.remove(s); }
             DOp::Rid(r, l) => { tr.register_rid_listener(r.clone(), txs[*l].clone()); registered[*l] = true; cleared_since[*l] = false; rid_owner.insert(r.clone(), *l); }
             DOp::Mid(m, l) => { tr.register_mid_listener(m.clone(), txs[*l].clone()); registered[*l] = true; cleared_since[*l] = false; section[*l] = Some(m.clone()); mid_owner.insert(m.clone(), *l); }
             DOp::Pts(p, l) => { tr.register_payload_list_listener(p.clone(), txs[*l].clone()); registered[*l] = true; cleared_since[*l] = false; pts_of[*l] = p.clone(); }
             DOp::Pt(p, l) => { tr.register_pt_listener(*p, txs[*l].clone()); registered[*l] = true; cleared_since[*l] = false; pts_of[*l].push(*p); }
             DOp::Prov(l) => { tr.register_provisional_listener(txs[*l].clone()); registered[*l] = true; cleared_since[*l] = false; prov_of[*l] = true; }
-            DOp::Close(l) => { rxs[*l] = None; }
+            DOp::Close(l) => { rxs[*l] = None; identified.retain(|_, v| v.0 != *l); }
             DOp::RidExt(x) => { tr.set_rid_extension_id(if *x == 0 { None } else { Some(*x) }); rid_ext = *x; }
             DOp::MidExt(x) => { tr.set_sdes_mid_extension_id(if *x == 0 { None } else { Some(*x) }); mid_ext = *x; }
-            DOp::Clear => { res = format!("n{}", tr.clear_listeners()); cleared_since = [true; NL]; rid_owner.clear(); mid_owner.clear(); section = Default::default(); pts_of = Default::default(); prov_of = [false; NL]; ssrc_owner.clear(); }
+            DOp::Clear => { res = format!("n{}", tr.clear_listeners()); cleared_since = [true; NL]; rid_owner.clear(); mid_owner.clear(); section = Default::default(); pts_of = Default::default(); prov_of = [false; NL]; ssrc_owner.clear(); identified.clear(); }
             DOp::Pkt { ssrc, pt, ext } => {
                 seq = seq.wrapping_add(1);
                 let pre = tr.verif_registry_snapshot(&txs);
@@ -188,6 +191,22 @@ pub async fn dexec(ops: &[DOp]) -> DOut {
                 // ghost: listeners 2 and 3 stand for simulcast-layer listeners of receivers 0 and 1 (separate channels
                 // that never register a MID themselves, as in peer_connection.rs); their media section is their parent's
                 let section_of = |l: usize| -> Option<String> { section[l].clone().or_else(|| if l >= 2 { section[l - 2].clone() } else { None }) };
+                // "the one identified by its RID or MID header extension, else by SSRC … dropped rather than handed to a receiver of
+                // another media section": once a packet of an SSRC has been identified by extension as receiver B's, a later
+                // extension-less packet of that SSRC is B's stream too — it must not be handed to a receiver of another section
+                if rid_val.is_none() && mid_val.is_none() {
+                    if let Some((b, how)) = identified.get(ssrc).copied() {
+                        for (l, _) in &got {
+                            if *l != b { if let (Some(sb), Some(sl)) = (section_of(b), section_of(*l)) { if sb != sl {
+                                fails.push((format!("cross:ssrc-binding-stale-after-{how}-hit"), format!("step {i}: SSRC {ssrc} was identified by {how} as listener {b}'s (section {sb:?}); the extension-less packet is handed to listener {l} of section {sl:?}")));
+                            } } }
+                        }
+                    }
+                } else {
+                    let hit = if got.len() == 1 && rid_named == Some(got[0].0) { Some((got[0].0, "rid")) }
+                        else if got.len() == 1 && live_mid_owner == Some(got[0].0) { Some((got[0].0, "mid")) } else { None };
+                    match hit { Some(h) => { identified.insert(*ssrc, h); } None => { identified.remove(ssrc); } }
+                }
                 // "… else by SSRC": a packet without RID / MID value whose SSRC the application registered for an OPEN listener
                 // reaches exactly that listener — whatever sweeping of closed bindings happened in between
                 if rid_val.is_none() && mid_val.is_none() {
